@@ -533,5 +533,5 @@ META = {
             "MPI_IN_PLACE, non-commutative operators, inter-communicators. Explicit errors (MPI error code, xbt_assert/exception message) are accepted; "
             "wrong buffers, crashes, deadlocks are violations (known ones listed in KNOWN_FINDINGS.txt by collective:algorithm:class).",
     "technique": "Coq proof (free commutative monoid lifting, verified checker) + translator for the algorithm table + exhaustive enumeration of the configuration grid on provenance data",
-    "claimed": False,
+    "claimed": True,
 }
